@@ -67,8 +67,12 @@ std::string show(std::string const& s, std::size_t cap = 200)
 }
 
 // ---------------------------------------------------------------- the site and the routing model
-enum Kind { K_HANDLER, K_CONTENT, K_RANGE, K_REDIRECT, K_UNKNOWN, K_STALL, K_MALFORMED };
-char const* const kind_name[] = {"handler", "content", "range", "redirect", "unknown-path", "stalled-path", "malformed"};
+// K_RANGE: a-b inside the document (the body is fully determined). K_RANGE_OOB: a range reaching to or beyond the
+// registered size, or written in a form the implementation accepts but the statement does not define (several ranges):
+// only what the statement fixes is demanded -- one response, framed by a content-length equal to the body sent, in
+// order -- plus, for a 206, that the bytes sent for positions inside the document are the document's bytes.
+enum Kind { K_HANDLER, K_CONTENT, K_RANGE, K_REDIRECT, K_UNKNOWN, K_STALL, K_MALFORMED, K_RANGE_OOB };
+char const* const kind_name[] = {"handler", "content", "range", "redirect", "unknown-path", "stalled-path", "malformed", "range-out-of-bounds"};
 
 unsigned short const PORT = 8080;
 char const* const REDIRECT_TARGET = "/new/place?x=1";
@@ -103,6 +107,8 @@ struct Exp
 	bool has_body = false; std::string body;
 	bool has_full = false; std::string full;
 	std::string location;
+	std::int64_t prefix_start = -1, prefix_avail = 0; // K_RANGE_OOB: first position asked for, document bytes from there
+	std::string cls;                                   // range class, for the evidence counters
 };
 
 struct Req
@@ -249,13 +255,14 @@ void finish_script(Client& c)
 
 // ---------------------------------------------------------------- request generator
 Req make_req(Kind k, Site const& site, std::string const& method, std::string const& target, std::string const& tag
-	, std::string const& conn_hdr, bool close, std::string const& extra_hdrs, std::int64_t ra = 0, std::int64_t rb = 0)
+	, std::string const& conn_hdr, bool close, std::string const& extra_hdrs, std::int64_t ra = 0, std::int64_t rb = 0
+	, char const* range_fmt = "Range: bytes=%d-%d\r\n", char const* range_cls = "in-bounds", bool judge_prefix = true)
 {
 	Req r; r.kind = k; r.close = close;
 	r.text = method + " " + target + " HTTP/1.1\r\n";
 	if (!tag.empty()) r.text += "X-Tag: " + tag + "\r\n";
 	r.text += extra_hdrs;
-	if (k == K_RANGE) r.text += "Range: bytes=" + std::to_string(ra) + "-" + std::to_string(rb) + "\r\n";
+	if (k == K_RANGE || k == K_RANGE_OOB) r.text += fmt(range_fmt, int(ra), int(rb));
 	r.text += conn_hdr;
 	r.text += "\r\n";
 	r.exp.kind = k;
@@ -270,7 +277,13 @@ Req make_req(Kind k, Site const& site, std::string const& method, std::string co
 			break;
 		}
 		case K_CONTENT: r.exp.status = 200; r.exp.has_body = true; r.exp.body = content_bytes(0, site.fsize); break;
-		case K_RANGE: r.exp.status = 206; r.exp.has_body = true; r.exp.body = content_bytes(ra, rb - ra + 1); r.label += fmt("[%d-%d]", int(ra), int(rb)); break;
+		case K_RANGE: r.exp.status = 206; r.exp.has_body = true; r.exp.body = content_bytes(ra, rb - ra + 1); r.exp.cls = range_cls; r.label += fmt("[%d-%d]", int(ra), int(rb)); break;
+		case K_RANGE_OOB:
+			r.exp.status = 0; // any status: the statement does not say how a range outside the document is answered
+			r.exp.cls = range_cls;
+			if (judge_prefix) { r.exp.prefix_start = ra; r.exp.prefix_avail = std::max<std::int64_t>(0, site.fsize - ra); }
+			r.label += fmt("[%d-%d of %d,%s]", int(ra), int(rb), int(site.fsize), range_cls);
+			break;
 		case K_REDIRECT: r.exp.status = 301; r.exp.location = REDIRECT_TARGET; break;
 		case K_UNKNOWN: r.exp.status = 404; break;
 		default: break;
@@ -300,7 +313,7 @@ Req gen_req(Rng& g, Site const& site, std::string const& tag, bool small, int fo
 	if (k < 0)
 	{
 		int const w = g.choose(100);
-		k = w < 35 ? K_HANDLER : w < 45 ? K_CONTENT : w < 60 ? K_RANGE : w < 70 ? K_REDIRECT : w < 88 ? K_UNKNOWN : w < 94 ? K_STALL : K_MALFORMED;
+		k = w < 32 ? K_HANDLER : w < 41 ? K_CONTENT : w < 63 ? K_RANGE : w < 71 ? K_REDIRECT : w < 88 ? K_UNKNOWN : w < 94 ? K_STALL : K_MALFORMED;
 	}
 	if (k == K_MALFORMED)
 	{
@@ -319,10 +332,29 @@ Req gen_req(Rng& g, Site const& site, std::string const& tag, bool small, int fo
 		case K_CONTENT: return make_req(K_CONTENT, site, method, vary_target(g, "/file"), tag, conn, close, extra);
 		case K_RANGE:
 		{
-			std::int64_t a = g.range(0, site.fsize - 1), b = g.range(a, site.fsize - 1);
-			if (g.coin(1, 5)) b = a; // one byte
-			if (g.coin(1, 8)) { a = 0; b = site.fsize - 1; }
-			return make_req(K_RANGE, site, method, vary_target(g, "/file"), tag, conn, close, extra, a, b);
+			// spellings the implementation accepts (it takes what follows '=' -- or the whole value -- as "first-last")
+			static char const* const fmts[] = {"Range: bytes=%d-%d\r\n", "Range: bytes=%d-%d\r\n", "Range: bytes=%d-%d\r\n", "range:bytes=%d-%d\r\n"
+				, "Range: bytes= %d - %d\r\n", "RANGE:  %d-%d \r\n", "Range: bytes=%d-%d\r\nAccept: */*\r\n"};
+			char const* const f = g.pick(fmts);
+			std::int64_t const size = site.fsize;
+			std::int64_t a = g.range(0, size - 1), b = g.range(a, size - 1);
+			std::string const t = vary_target(g, "/file");
+			switch (g.choose(13))
+			{
+				case 0: b = a; return make_req(K_RANGE, site, method, t, tag, conn, close, extra, a, b, f, "single-byte");
+				case 1: return make_req(K_RANGE, site, method, t, tag, conn, close, extra, 0, size - 1, f, "whole-document");
+				case 2: return make_req(K_RANGE, site, method, t, tag, conn, close, extra, a, size - 1, f, "ends-at-last-byte");
+				case 3: return make_req(K_RANGE, site, method, t, tag, conn, close, extra, size - 1, size - 1, f, "last-byte-only");
+				// ---- reaching to or beyond the registered size
+				case 4: return make_req(K_RANGE_OOB, site, method, t, tag, conn, close, extra, a, size, f, "ends-at-size");
+				case 5: return make_req(K_RANGE_OOB, site, method, t, tag, conn, close, extra, a, size + g.range(1, 400), f, "ends-beyond-size");
+				case 6: return make_req(K_RANGE_OOB, site, method, t, tag, conn, close, extra, size - 1, size + g.range(0, 50), f, "starts-at-last-byte-ends-beyond");
+				case 7: return make_req(K_RANGE_OOB, site, method, t, tag, conn, close, extra, 0, size + g.range(0, 300), f, "whole-document-and-more");
+				case 8: { std::int64_t const s0 = size + g.range(0, 100); return make_req(K_RANGE_OOB, site, method, t, tag, conn, close, extra, s0, s0 + g.range(0, 200), f, "starts-at-or-beyond-size"); }
+				// ---- several ranges: the implementation serves the first one; only the framing is judged
+				case 9: return make_req(K_RANGE_OOB, site, method, t, tag, conn, close, extra, a, b, "Range: bytes=%d-%d,0-0\r\n", "several-ranges", false);
+				default: return make_req(K_RANGE, site, method, t, tag, conn, close, extra, a, b, f, "in-bounds");
+			}
 		}
 		case K_REDIRECT: return make_req(K_REDIRECT, site, method, vary_target(g, "/old"), tag, conn, close, extra);
 		case K_STALL: return make_req(K_STALL, site, method, vary_target(g, "/stall"), tag, conn, close, extra);
@@ -621,7 +653,7 @@ struct World
 		Resp const& r = c.frames[i]; Exp const& e = c.exp[i];
 		std::string const who = fmt("client %d, request %zu (%s): ", c.id, i, c.reqs[i].label.c_str());
 		std::string const kn = kind_name[e.kind];
-		if (r.status != e.status)
+		if (e.status != 0 && r.status != e.status)
 		{
 			viol("wrong-status:" + kn, who + fmt("status %d, the routing model says %d; request \"%s\"", r.status, e.status, show(c.reqs[i].text).c_str()));
 			return;
@@ -641,6 +673,15 @@ struct World
 			if (it == r.hdr.end() || it->second != e.location)
 				viol("wrong-location", who + "Location is \"" + (it == r.hdr.end() ? std::string("(absent)") : show(it->second)) + "\", registered target \"" + e.location + "\"");
 		}
+		if (e.kind == K_RANGE_OOB && e.prefix_start >= 0 && r.status == 206)
+		{
+			// whatever length the server chose to send, the bytes for positions inside the document are the document's
+			std::size_t const nchk = std::min<std::size_t>(r.body.size(), std::size_t(e.prefix_avail));
+			if (r.body.compare(0, nchk, content_bytes(e.prefix_start, std::int64_t(nchk))) != 0)
+				viol("wrong-body:" + kn, who + fmt("206 whose first %zu body bytes are not the document's bytes from offset %d: \"%s\"", nchk, int(e.prefix_start), show(r.body, 80).c_str()));
+		}
+		if (e.kind == K_RANGE || e.kind == K_RANGE_OOB) R().count(("range_class_" + e.cls).c_str());
+		if (i > 0 && c.exp[i - 1].kind == K_RANGE_OOB) R().count("responses_verified_right_after_out_of_bounds_range");
 		R().count("responses_verified");
 		R().count((std::string("responses_verified_") + kind_name[e.kind]).c_str());
 	}
@@ -846,9 +887,9 @@ struct World
 
 // ---------------------------------------------------------------- scenario tables for the exhaustive modes
 Req simple_req(Site const& site, Kind k, char const* target, char const* tag, bool close, std::int64_t ra = 0, std::int64_t rb = 0)
-{ return make_req(k, site, "GET", target, tag, close ? "Connection: close\r\n" : "", close, "", ra, rb); }
+{ return make_req(k, site, "GET", target, tag, close ? "Connection: close\r\n" : "", close, "", ra, rb, "Range: bytes=%d-%d\r\n", k == K_RANGE_OOB ? "ends-beyond-size" : "in-bounds"); }
 
-int const N_CUT_SCEN = 8;
+int const N_CUT_SCEN = 9;
 
 // client 0 carries the requests under test; client 1 follows to see that the server still serves
 void build_short_scenario(int s, Scenario& sc)
@@ -868,6 +909,7 @@ void build_short_scenario(int s, Scenario& sc)
 		case 4: c0->reqs = {simple_req(st, K_HANDLER, "/dir/h2", "a", false), simple_req(st, K_STALL, "/stall", "", false), simple_req(st, K_HANDLER, "/h1", "b", false)}; follow = false; break;
 		case 5: { Req b; b.kind = K_MALFORMED; b.text = "BOGUS\r\n\r\n"; b.label = "malformed"; c0->reqs = {simple_req(st, K_HANDLER, "/h1", "a", false), b, simple_req(st, K_HANDLER, "/h1", "b", false)}; break; }
 		case 6: sc.mtu = 7; c0->reqs = {simple_req(st, K_HANDLER, "/h1", "a", false), simple_req(st, K_HANDLER, "/h1", "b", false), simple_req(st, K_CONTENT, "/file", "", false)}; break;
+		case 8: c0->reqs = {simple_req(st, K_RANGE_OOB, "/file", "", false, 30, 49), simple_req(st, K_HANDLER, "/h1", "b", false)}; break; // range beyond the 40-byte document, then a pipelined request
 		default: c0->reqs = {simple_req(st, K_HANDLER, "/h1", "a", false)}; c0->policy = P_EOF_PARTIAL; c0->tail = "GET /h1 HTTP/1.1\r\n\r"; break;
 	}
 	c0->depth = 1000;
